@@ -36,11 +36,11 @@ def run(F, R, tier):
     # ------------------------------------------------------------------ R1 compensation in generate_method
     r1 = R.rule("C09-R1", "T8+T11", "generate_method, evaluated abstractly with every storage/document call an oracle that may succeed or fail: on every path the net effect is all (key generated, method inserted, key id recorded → Ok) or nothing (key deleted again ✓, method removed again, no key id → the original error), the only other outcome being Err(UndoOperationFailed) when the key deletion itself failed; try_undo_key_generation deletes exactly the given key and reports a failed deletion")
     OPQ = (r"JwkStorage::(generate|delete|insert|sign|exists)$|JwkStorageBbsPlusExt::generate_bbs$|KeyIdStorage::(insert_key_id|get_key_id|delete_key_id)$|::insert_method$|::remove_method$|"
-           r"VerificationMethod::new_from_jwk$|MethodDigest::new$|Storage::key_(id_)?storage$|DIDUrl::fragment$|::id$")
+           r"VerificationMethod::new_from_jwk$|MethodDigest::new$|Storage::key_(id_)?storage$|DIDUrl::fragment$|::id$|::resolve_(method|service)$")
     for kind, fn in GEN.items():
         if not r1.anchor(F.hir(fn), fn):
             continue
-        tab = SR.Table(F, fn, opaque=OPQ, rule=r1, inline_depth=5)
+        tab = SR.Table(F, fn, opaque=OPQ, rule=r1, inline_depth=5, effectful=r"JwkStorage::|JwkStorageBbsPlusExt::|KeyIdStorage::|::insert_method$|::remove_method$")
         rows = {"ok": 0, "rolled-back": 0, "undo-failed": 0, "before-generate": 0}
         for q in tab.paths:
             gens = q.calls(r"JwkStorage::generate$|JwkStorageBbsPlusExt::generate_bbs$")
@@ -130,7 +130,7 @@ def run(F, R, tier):
     for kind, fn in PURGE.items():
         if not r2.anchor(F.hir(fn), fn):
             continue
-        tab = SR.Table(F, fn, opaque=OPQ2, rule=r2, inline_depth=5)
+        tab = SR.Table(F, fn, opaque=OPQ2, rule=r2, inline_depth=5, effectful=r"JwkStorage::|KeyIdStorage::|::insert_method$|::remove_method(_and_scope)?$")
         rows = {"ok": 0, "rolled-back": 0, "undo-failed": 0, "not-found": 0}
         for q in tab.paths:
             rms = q.calls(r"::remove_method_and_scope$")
